@@ -94,145 +94,173 @@ def check_renderer(ctx, cname, rules=("DIMGUARD", "DIST", "SHARP", "SMOOTH", "WI
         ctx.decide(ok and ok_ra, "DIST", site, (fi, c),
                    f"distance of every cell from self.position on `{grid_p}` via polar_coordinates",
                    f"polar_coordinates is called as `{U(c)[:90]}`; expected (grid, origin=self.position, ret_angle={'True' if perturbed else 'False'})")
-    # names bound from the call
-    dist_name, angles_name = None, None
-    st = si.statement(c)
-    if isinstance(st, ast.Assign) and len(st.targets) == 1:
-        t = st.targets[0]
-        if isinstance(t, ast.Name):
-            dist_name = t.id
-        elif isinstance(t, ast.Tuple) and t.elts and isinstance(t.elts[0], ast.Name):
-            dist_name = t.elts[0].id
-            if len(t.elts) == 2 and isinstance(t.elts[1], ast.Starred) and isinstance(t.elts[1].value, ast.Name):
-                angles_name = t.elts[1].value.id
-    if dist_name is None:
-        ctx.undecided("DIST", site + ":binding", (fi, c), "result of polar_coordinates is not bound to a name")
+    # ---- path-sensitive normal form of the returned image: every path to a return, with temporaries substituted.
+    # The rules below compare this normal form, so guard clauses, temporaries and renamed locals do not matter.
+    from ..astutil import value_cases, truth_of, canon_tests, mini_eval
+
+    P = U(c)
+    locals_ = {n.id for n in ast.walk(fi.node) if isinstance(n, ast.Name) and isinstance(n.ctx, ast.Store)}
+    paths = []  # (decisions, kind, expr AST in tokens DD/RR, width text or None, cast ok, stmt)
+    for rn in fv.return_nodes():
+        if rn.stmt.value is None:
+            continue
+        for dec, val in value_cases(fv, rn.stmt, rn.stmt.value):
+            # prune infeasible paths (a decision on a constant that contradicts its outcome)
+            feasible = True
+            for ttxt, outc in dec.items():
+                try:
+                    if bool(mini_eval(ast.parse(ttxt, mode="eval").body, {})) != outc:
+                        feasible = False
+                except (ValueError, SyntaxError):
+                    pass
+            if not feasible:
+                continue
+            txt = U(val)
+            angles_ok = True
+            if perturbed:
+                for form in (f"self.interface_distance(*{P}[1:])", f"self.interface_distance(*list({P}[1:]))", f"self.interface_distance(*tuple({P}[1:]))"):
+                    txt = txt.replace(form, "RR")
+                if "self.interface_distance(" in txt:
+                    angles_ok = False
+                txt = txt.replace(f"{P}[0]", "DD")
+            else:
+                txt = txt.replace(P, "DD").replace("self.radius", "RR")
+            try:
+                node = ast.parse(txt, mode="eval").body
+            except SyntaxError:
+                node = val
+            cast_ok = isinstance(node, ast.Call) and isinstance(node.func, ast.Attribute) and node.func.attr == "astype" and len(node.args) == 1 and U(node.args[0]) == dtype_p
+            inner = node.func.value if cast_ok else node
+            kind = "sharp" if isinstance(inner, ast.Compare) else ("smooth" if "tanh" in U(inner) else "other")
+            paths.append((dec, kind, inner, angles_ok, cast_ok, rn.stmt))
+    if not paths:
+        ctx.undecided("DIST", site + ":paths", fi, "no path to a returned image could be evaluated")
         return out
-    out["dist"] = dist_name
-    # radius expression
-    if perturbed:
-        iface = None
-        for c2 in fv.calls():
-            if isinstance(c2.func, ast.Attribute) and c2.func.attr == "interface_distance" and U(c2.func.value) == "self":
-                s2 = si.statement(c2)
-                if isinstance(s2, ast.Assign) and isinstance(s2.targets[0], ast.Name):
-                    iface = s2.targets[0].id
-                ok_star = len(c2.args) == 1 and isinstance(c2.args[0], ast.Starred) and U(c2.args[0].value) == angles_name
-                if "DIST" in rules:
-                    ctx.decide(ok_star, "DIST", site + ":angles", (fi, c2),
-                               "interface distance evaluated at the angles of every cell",
-                               f"interface_distance is called as `{U(c2)[:80]}`, not with the angles returned by polar_coordinates")
-        if iface is None:
-            ctx.violate("DIST", site + ":interface", fi, "the direction-dependent interface distance self.interface_distance(*angles) is not used")
-            return out
-        R = iface
-    else:
-        R = "self.radius"
-    out["R"] = R
-    # ---- SHARP / SMOOTH: find comparisons dist < R and tanh expression
-    sharp, smooth = [], []
-    for s in fv.statements():
-        if isinstance(s, (ast.Assign, ast.Return)) and s.value is not None:
-            for n in walk_no_nested(s.value):
-                if isinstance(n, ast.Compare) and dist_name in names_in(n):
-                    sharp.append((s, n))
-                if isinstance(n, ast.Call) and (fv.callee(n) or "").endswith("tanh"):
-                    smooth.append((s, s.value))
+    out["dist"], out["R"] = "DD", "RR"
+    if perturbed and "DIST" in rules:
+        bad = [p_ for p_ in paths if not p_[3]]
+        ctx.decide(not bad, "DIST", site + ":angles", (fi, bad[0][5]) if bad else (fi, c),
+                   "interface distance evaluated at the angles of every cell",
+                   "interface_distance is not called with exactly the angles returned by polar_coordinates (all components after the distance, in order)")
+    sharp = [p_ for p_ in paths if p_[1] == "sharp"]
+    smooth = [p_ for p_ in paths if p_[1] == "smooth"]
+    other = [p_ for p_ in paths if p_[1] == "other"]
     if "SHARP" in rules:
         if not sharp:
             ctx.violate("SHARP", site, fi, "no indicator `dist < R` for the sharp/boolean image")
-        for k, (s, cmpn) in enumerate(sharp):
-            cp = compare_parts(cmpn)
-            tag = site + (f"#{k}" if len(sharp) > 1 else "")
-            if cp is None:
-                ctx.undecided("SHARP", tag, (fi, s), "chained comparison")
-                continue
-            l, op, rr = cp
-            lt = isinstance(op, ast.Lt) and U(l) == dist_name and U(rr) == R
-            gt = isinstance(op, ast.Gt) and U(rr) == dist_name and U(l) == R
-            ctx.decide(lt or gt, "SHARP", tag, (fi, s), f"indicator is the strict test {dist_name} < {R}",
-                       f"sharp image is `{U(cmpn)}`; a cell is inside exactly when its (periodic) distance is strictly smaller than {R}")
+        else:
+            bad = [p_ for p_ in sharp if canon_tests(p_[2], True) != [("DD < RR", True)]]
+            ctx.decide(not bad and not other, "SHARP", site, (fi, (bad or other or sharp)[0][5]), "indicator is the strict test dist < R on every path",
+                       f"sharp image is `{U((bad or other)[0][2])[:80] if (bad or other) else ''}`; a cell is inside exactly when its (periodic) distance is strictly smaller than the radius/interface distance")
+    widths = {}
     if smooth:
-        s, ex = smooth[0]
-        dz = Expr.atom("DIST")
-        Rz = Expr.atom("R")
-        wname = None
-        env = {dist_name: dz}
-        if R != "self.radius":
-            env[R] = Rz
+        dz, Rz = Expr.atom("DIST"), Expr.atom("R")
 
         def hook(cv, call, name):
             if (name or "").endswith("tanh") and len(call.args) == 1:
                 return Expr.atom("tanh[" + cv.conv(call.args[0]).show() + "]")
             return None
 
-        cv = _conv(ctx, fv, env=env, hook=hook)
-        cv.env["self.radius"] = Rz
-        try:
-            e = cv.conv(ex.func.value if isinstance(ex, ast.Call) and isinstance(ex.func, ast.Attribute) and ex.func.attr == "astype" else ex)
-            out["smooth"] = e
-            tan = [a for a in e.atoms() if a.startswith("tanh[")]
-            half = Expr.const(Fraction(1, 2))
-            ok = len(tan) == 1 and e == half + half * Expr.atom(tan[0])
-            arg = tan[0][5:-1] if tan else ""
-            # argument must be (R - DIST)/w with a single width atom w
-            ok_arg = False
-            wat = None
-            if tan:
-                # re-convert the argument
-                tcall = [n for n in ast.walk(ex) if isinstance(n, ast.Call) and (fv.callee(n) or "").endswith("tanh")][0]
-                a = cv.conv(tcall.args[0])
-                ws = [x for x in a.atoms() if x not in ("DIST", "R")]
-                if len(ws) == 1:
-                    wat = ws[0]
-                    ok_arg = a == (Rz - dz) * Expr.atom(wat).inverse()
-            out["width_atom"] = wat
-            if "SMOOTH" in rules:
-                ctx.decide(ok and ok_arg, "SMOOTH", site, (fi, s),
+        half = Expr.const(Fraction(1, 2))
+        ok_all, first_e, why = True, None, ""
+        for dec, kind, inner, _, _, st in smooth:
+            cv = _conv(ctx, fv, env={"DD": dz, "RR": Rz}, hook=hook)
+            try:
+                e = cv.conv(inner)
+                tan = [a_ for a_ in e.atoms() if a_.startswith("tanh[")]
+                okp = len(tan) == 1 and e == half + half * Expr.atom(tan[0])
+                tcall = [n for n in ast.walk(inner) if isinstance(n, ast.Call) and U(n.func).split(".")[-1] == "tanh"]
+                wat = None
+                if okp and tcall:
+                    a_ = cv.conv(tcall[0].args[0])
+                    ws = [x for x in a_.atoms() if x not in ("DIST", "R")]
+                    if len(ws) == 1:
+                        wat = ws[0]
+                        okp = a_ == (Rz - dz) * Expr.atom(wat).inverse()
+                        widths[id(dec)] = (dec, wat, st)
+                        if okp:
+                            first_e = first_e or (half + half * Expr.atom("tanh[(R - DIST)/W]"))
+                        else:
+                            first_e = e
+                    else:
+                        okp = False
+                if not okp:
+                    ok_all, why = False, f"`{U(inner)[:80]}` (normal form {e.show()[:100]})"
+            except NotAlgebraic as exc:
+                ok_all, why = None, str(exc)
+        if first_e is not None:
+            out["smooth"] = first_e
+            out["width_atom"] = "W"
+        if "SMOOTH" in rules:
+            if ok_all is None:
+                ctx.undecided("SMOOTH", site, (fi, smooth[0][5]), why)
+            else:
+                ctx.decide(bool(ok_all), "SMOOTH", site, (fi, smooth[0][5]),
                            "profile ½ + ½·tanh((R − dist)/w): in (0,1), non-increasing in dist, above ½ exactly when dist < R",
-                           f"smooth profile `{U(ex)[:80]}` (normal form {e.show()}) is not ½ + ½·tanh((R − dist)/w)")
-        except NotAlgebraic as exc:
-            if "SMOOTH" in rules:
-                ctx.undecided("SMOOTH", site, (fi, s), str(exc))
+                           f"smooth profile {why} is not ½ + ½·tanh((R − dist)/w)")
     elif cname != "SphericalDroplet" and "SMOOTH" in rules:
         ctx.violate("SMOOTH", site, fi, "no tanh profile for the diffuse image")
-    # ---- WIDTH: default width and the sharp-branch condition
+    # ---- WIDTH: default width and the sharp-branch condition, as truth tables over (width unset, width == 0, boolean dtype)
     if cname != "SphericalDroplet" and "WIDTH" in rules:
-        wn = out.get("width_atom")
-        okd, where = False, fi
-        if wn:
-            from ..astutil import value_cases, truth_of
-
-            vals = set()
-            at = smooth[0][0] if smooth else (sharp[0][0] if sharp else None)
-            if at is not None:
-                for dec, val in value_cases(fv, at, ast.Name(id=wn, ctx=ast.Load())):
-                    vals.add((truth_of(dec, "self.interface_width is None"), U(val)))
-            where = at if at is not None else fi
-            okd = vals == {(True, f"{grid_p}.typical_discretization"), (False, "self.interface_width")}
-            ctx.decide(okd, "WIDTH", site + ":default", (fi, where),
-                       "unset width (`is None`) defaults to grid.typical_discretization, otherwise the droplet's own width",
-                       f"interface width selection is {sorted(vals, key=str)}; expected self.interface_width, or grid.typical_discretization exactly when it `is None` (a width of 0 is a valid sharp interface)")
-            # branch condition for the sharp image
-            conds = []
-            for s, _ in sharp:
-                for test, p in si.guards(s):
-                    conds.append((U(test), p))
-            want = {f"{wn} == 0 or np.issubdtype({dtype_p}, bool)"}
-            got = {t for t, p in conds if p}
-            alt = {f"np.issubdtype({dtype_p}, bool) or {wn} == 0"}
-            ctx.decide(bool(got) and (got <= want | alt), "WIDTH", site + ":sharp-branch", (fi, sharp[0][0]) if sharp else fi,
-                       "indicator used exactly for width 0 or boolean images",
-                       f"the sharp image is selected by {sorted(got)}; expected `{sorted(want)[0]}`")
+        vals = set()
+        for dec, wat, st in widths.values():
+            vals.add((truth_of(dec, "self.interface_width is None"), wat))
+        okd = vals == {(True, f"{grid_p}.typical_discretization"), (False, "self.interface_width")}
+        ctx.decide(okd, "WIDTH", site + ":default", (fi, smooth[0][5]) if smooth else fi,
+                   "unset width (`is None`) defaults to grid.typical_discretization, otherwise the droplet's own width",
+                   f"interface width selection is {sorted(vals, key=str)}; expected self.interface_width, or grid.typical_discretization exactly when it `is None` (a width of 0 is a valid sharp interface)")
+        # decisions that vary between the paths and concern only parameters/attributes
+        WTXT = ("self.interface_width", f"{grid_p}.typical_discretization")
+        table_ok, amb = True, None
+        varying = {}
+        for dec, *_ in paths:
+            for k, v in dec.items():
+                varying.setdefault(k, set()).add(v)
+        for N in (True, False):
+            w_here = f"{grid_p}.typical_discretization" if N else "self.interface_width"
+            for Z in (True, False):
+                for B in (True, False):
+                    kinds = set()
+                    for dec, kind, *_ in paths:
+                        consistent = True
+                        for ttxt, outc in dec.items():
+                            if len(varying.get(ttxt, ())) < 2:
+                                continue  # same outcome on every path: independent of the selection
+                            try:
+                                tn = ast.parse(ttxt, mode="eval").body
+                            except SyntaxError:
+                                continue
+                            if names_in(tn) & (locals_ - {"self", grid_p, dtype_p}):
+                                continue  # un-substituted twin of a decision
+                            t2 = ttxt.replace("self.interface_width is None", "NN").replace("self.interface_width is not None", "(not NN)")
+                            for w_ in WTXT:
+                                t2 = t2.replace(f"{w_} == 0", "ZZ" if w_ == w_here else "ZOTHER").replace(f"{w_} != 0", "(not ZZ)" if w_ == w_here else "ZOTHER")
+                            t2 = t2.replace(f"np.issubdtype({dtype_p}, bool)", "BB").replace(f"numpy.issubdtype({dtype_p}, bool)", "BB")
+                            if "ZOTHER" in t2:
+                                consistent = False  # path taken with the other width source
+                                break
+                            try:
+                                if bool(mini_eval(ast.parse(t2, mode="eval").body, {"NN": N, "ZZ": Z, "BB": B})) != outc:
+                                    consistent = False
+                                    break
+                            except (ValueError, SyntaxError):
+                                amb = ttxt
+                        if consistent:
+                            kinds.add(kind)
+                    want_kind = "sharp" if (Z or B) else "smooth"
+                    if kinds != {want_kind}:
+                        table_ok = False
+                        bad_case = (N, Z, B, sorted(kinds))
+        if amb is not None and not table_ok:
+            ctx.undecided("WIDTH", site + ":sharp-branch", fi, f"selection of the sharp image depends on `{amb}`, which is not evaluable")
+        else:
+            ctx.decide(table_ok, "WIDTH", site + ":sharp-branch", (fi, sharp[0][5]) if sharp else fi,
+                       "indicator used exactly for width 0 or boolean images (truth table over width unset / width 0 / boolean dtype)",
+                       "the sharp image is not selected exactly when the width is 0 or a boolean image is requested" + (f": (unset={bad_case[0]}, zero={bad_case[1]}, bool={bad_case[2]}) gives {bad_case[3]}" if not table_ok else ""))
     # ---- CAST
     if "CAST" in rules:
-        bad = []
-        for n in fv.return_nodes():
-            v = n.stmt.value
-            okc = isinstance(v, ast.Call) and isinstance(v.func, ast.Attribute) and v.func.attr == "astype" and len(v.args) == 1 and U(v.args[0]) == dtype_p
-            if not okc:
-                bad.append(n.stmt)
-        ctx.decide(not bad, "CAST", site, (fi, bad[0]) if bad else fi, "image returned in the requested dtype",
+        bad = [p_ for p_ in paths if not p_[4]]
+        ctx.decide(not bad, "CAST", site, (fi, bad[0][5]) if bad else fi, "image returned in the requested dtype",
                    f"returned image is not cast to `{dtype_p}` (boolean masks are requested by refine_droplet)")
     return out
 
@@ -240,10 +268,7 @@ def check_renderer(ctx, cname, rules=("DIMGUARD", "DIST", "SHARP", "SMOOTH", "WI
 def check_renderer_siblings(ctx, infos):
     d, p = infos.get("DiffuseDroplet", {}), infos.get("PerturbedDropletBase", {})
     if "smooth" in d and "smooth" in p:
-        wa, wb = d.get("width_atom"), p.get("width_atom")
         a, b = d["smooth"], p["smooth"]
-        if wa and wb and wa != wb:
-            b = b.subst(wb, Expr.atom(wa))
         ctx.decide(a == b, "SIBLING", f"{DROP}.DiffuseDroplet._get_phase_field~PerturbedDropletBase._get_phase_field", p["fi"],
                    "perturbed and diffuse renderers use one profile (interface ↦ radius)",
                    f"the perturbed renderer's profile {b.show()} differs from the diffuse one {a.show()} under interface ↦ radius")
@@ -259,21 +284,35 @@ def polar_info(ctx):
 
 
 def polar_returns(ctx):
-    """{dim: (return stmt, tuple length)} for the ret_angle branches"""
+    """{dim: (return stmt, tuple length)} for the ret_angle branches — decided as a truth table over the grid
+    dimension (whatever the dispatch is spelled like: elif chain, successive early returns, negated tests)"""
+    from ..astutil import value_cases, mini_eval
+
     fi = polar_info(ctx)
     fv = view(ctx.model, fi)
-    si = stmt_index(fv)
+    gp = fi.params[0]
     out = {}
     for n in fv.return_nodes():
         s = n.stmt
-        dim = None
-        for test, pol in si.guards(s):
-            cp = compare_parts(test)
-            if cp and pol and isinstance(cp[1], ast.Eq) and U(cp[0]).endswith(".dim") and isinstance(cp[2], ast.Constant):
-                dim = cp[2].value
-                break
-        if dim is not None and isinstance(s.value, ast.Tuple):
-            out[dim] = (s, len(s.value.elts))
+        if not isinstance(s.value, ast.Tuple):
+            continue
+        for dec, _ in value_cases(fv, s, s.value):
+            dims = []
+            for d in (1, 2, 3):
+                ok = True
+                for ttxt, outc in dec.items():
+                    t2 = ttxt.replace(f"{gp}.dim", "DIMV")
+                    if "DIMV" not in t2 and "ret_angle" not in t2:
+                        continue
+                    try:
+                        if bool(mini_eval(ast.parse(t2, mode="eval").body, {"DIMV": d, "ret_angle": True})) != outc:
+                            ok = False
+                    except (ValueError, SyntaxError):
+                        pass
+                if ok:
+                    dims.append(d)
+            if len(dims) == 1:
+                out[dims[0]] = (s, len(s.value.elts))
     return fi, out
 
 
